@@ -5,6 +5,7 @@ package main
 import (
 	"fmt"
 	"reflect"
+	"strings"
 	"time"
 	"unsafe"
 
@@ -110,6 +111,81 @@ func (h *harness) sequencerProbe(rng *lib.RNG) {
 	}
 }
 
+// newChainProbe: preconfirmed.NewChain on every list of up to 3 entries numbered in [3,6] (contiguous,
+// gaps, repeats, descending), the empty list, numbers around 2^64-1, and a nil entry: error or a view
+// that yields exactly the entries given; compared with the model's newChain.
+func (h *harness) newChainProbe() {
+	mk := func(n uint64) *pending.PreConfirmed {
+		return &pending.PreConfirmed{Block: &core.Block{Header: &core.Header{Number: n}}, StateUpdate: &core.StateUpdate{StateDiff: &core.StateDiff{}}}
+	}
+	var lists [][]uint64
+	lists = append(lists, nil)
+	vals := []uint64{3, 4, 5, 6}
+	for _, a := range vals {
+		lists = append(lists, []uint64{a})
+		for _, b := range vals {
+			lists = append(lists, []uint64{a, b})
+			for _, c := range vals {
+				lists = append(lists, []uint64{a, b, c})
+			}
+		}
+	}
+	top := ^uint64(0)
+	lists = append(lists, []uint64{top - 1, top}, []uint64{top, 0}, []uint64{top}, []uint64{0, 1})
+	for _, ns := range lists {
+		es := make([]*pending.PreConfirmed, len(ns))
+		for i, n := range ns {
+			es[i] = mk(n)
+		}
+		var v preconfirmed.ChainReader
+		var err error
+		if e, panicked, stack := lib.Try(func() error { v, err = preconfirmed.NewChain(es...); return nil }); panicked {
+			h.res.Violate(lib.Violation{Sig: "newchain-panics", What: fmt.Sprintf("NewChain(%v): %v\n%s", ns, e, clip(stack)), Replay: map[string]any{"kind": "newchain-probe", "numbers": ns}})
+			continue
+		}
+		impl := "err"
+		if err == nil {
+			var of []string
+			i := 0
+			okEntries := v.Length() == len(es)
+			for e := range v.OldestFirst() {
+				if i >= len(es) || e != es[i] {
+					okEntries = false
+				}
+				of = append(of, fmt.Sprint(e.Block.Number))
+				i++
+			}
+			if !okEntries || i != len(es) {
+				h.res.Violate(lib.Violation{Sig: "newchain-view-is-not-the-entries-given", What: fmt.Sprintf("NewChain(%v) yields %v (length %d)", ns, of, v.Length()),
+					Replay: map[string]any{"kind": "newchain-probe", "numbers": ns}})
+			}
+			impl = fmt.Sprintf("ok %d %s", v.Length(), strings.Join(of, ","))
+			h.res.Hit("newchain-accepted")
+		} else {
+			h.res.Hit("newchain-rejected")
+		}
+		h.res.Case(fmt.Sprintf("newchain/%v", ns), len(ns) > 1)
+		if h.drv != nil {
+			line := "newchain " + joinU(ns)
+			model, derr := h.drv.Ask(line)
+			if derr != nil || model == "bad-op" {
+				h.res.Fatalf("newchain probe: the Lean driver failed on %q: %v %s", line, derr, model)
+				return
+			}
+			h.res.Compared(1)
+			if model != impl {
+				h.res.Mismatch(lib.Mismatch{Sig: "model-differs:newchain", Input: map[string]any{"line": line}, Model: model, Impl: impl})
+			}
+		}
+	}
+	// a nil entry is an error, never a panic
+	if _, err := preconfirmed.NewChain(mk(3), nil); err == nil {
+		h.res.Violate(lib.Violation{Sig: "newchain-accepts-nil-entry", What: "NewChain(entry, nil) returned no error", Replay: map[string]any{"kind": "newchain-probe"}})
+	} else {
+		h.res.Hit("newchain-rejected-nil-entry")
+	}
+}
+
 // fallbackProbe: MakeEmptyPreConfirmedForParent + NewChain on a real chain, for every head.
 func (h *harness) fallbackProbe(rng *lib.RNG) {
 	for _, newState := range []bool{false, true} {
@@ -118,6 +194,19 @@ func (h *harness) fallbackProbe(rng *lib.RNG) {
 		if err != nil {
 			h.res.Fatalf("fallback probe: setup failed: %v", err)
 			return
+		}
+		// the error path of makeStateDiffForEmptyBlock: the block whose hash is wanted does not exist
+		if top, err := node.bc.HeadsHeader(); err == nil {
+			for _, ahead := range []uint64{core.BlockHashLag, core.BlockHashLag + 3} {
+				fake := *top
+				fake.Number = top.Number + ahead // the block above it is top+ahead+1: it wants the hash of block top+ahead-9
+				e, err := sync.MakeEmptyPreConfirmedForParent(node.bc, &fake)
+				impl := "err"
+				if err == nil {
+					impl = canonDiff(e.StateUpdate.StateDiff)
+				}
+				h.compareEmptyDiff(node, fake.Number+1, impl)
+			}
 		}
 		// rebuild block by block is not needed: every historical header is available
 		for n := uint64(0); n < uint64(node.height); n++ {
@@ -132,6 +221,7 @@ func (h *harness) fallbackProbe(rng *lib.RNG) {
 					Replay: map[string]any{"kind": "fallback-probe", "head": n, "new_state": newState}})
 				continue
 			}
+			h.compareEmptyDiff(node, n+1, canonDiff(e.StateUpdate.StateDiff))
 			v, err := preconfirmed.NewChain(&e)
 			h.res.Case(fmt.Sprintf("fallback/%v/%d", newState, n), true)
 			var hashWrites atomicCounter
@@ -155,6 +245,31 @@ func (h *harness) fallbackProbe(rng *lib.RNG) {
 }
 
 type atomicCounter int
+
+// compareEmptyDiff: makeStateDiffForEmptyBlock (through MakeEmptyPreConfirmedForParent) vs the model's
+// emptyBlockDiff for block num; impl is the canonical text of the real diff, or "err".
+func (h *harness) compareEmptyDiff(node *node, num uint64, impl string) {
+	if h.drv == nil {
+		return
+	}
+	hashTok := "-"
+	if num >= core.BlockHashLag {
+		if bh, err := node.bc.BlockHeaderHashByNumber(num - core.BlockHashLag); err == nil {
+			hashTok = fv(bh)
+		}
+	}
+	line := fmt.Sprintf("emptydiff %d %s", num, hashTok)
+	model, err := h.drv.Ask(line)
+	if err != nil || model == "bad-op" {
+		h.res.Fatalf("fallback probe: the Lean driver failed on %q: %v %s", line, err, model)
+		return
+	}
+	h.res.Compared(1)
+	h.res.Hit("fallback-empty-diff-compared:" + map[bool]string{true: "err", false: map[bool]string{true: "with-blockhash-write", false: "no-write"}[num >= core.BlockHashLag]}[impl == "err"])
+	if model != impl {
+		h.res.Mismatch(lib.Mismatch{Sig: "model-differs:emptydiff", Input: map[string]any{"line": line}, Model: clip(model), Impl: clip(impl)})
+	}
+}
 
 func firstWord(s string) string {
 	for i, c := range s {
